@@ -79,7 +79,7 @@ func NewEnvClock(clock int) *Env {
 		scen.YearsBasket("KYR", 5),
 		// a buyer fee is in force, so that a purchase without a sufficient max fee is a message that FAILS in
 		// the handler (not in stateless validation), as often as the traces repeat it
-		scen.GovFeeParams(scen.G, "0.1", "0"),
+		scen.GovFeeParams(scen.G, "1", "0"), // 100%: a purchase of 0.5 x 3 owes a fee of 1
 	).Build(sc)
 	eco := sc.Eco.ExportGenesis(sctx, sc.Cdc)
 	dat, err := sc.DataSrv.ExportGenesis(sctx, sc.Cdc)
